@@ -97,3 +97,9 @@ check('C17', 'exploration', 'exhaustive enumeration of the type x expression x l
       'operation named by the type with name, labels, namespace (default deep), help, unit and value (float(expr) or 1); '
       'with zero processors nothing is reported and the fire budget stays untouched.',
       'Recording processors are the observation point (real Prometheus/OTel back-ends are out of scope).')
+check('C18', 'exploration', 'model-based property testing (op histories vs reference models) + algebraic laws + environment/plugin precedence end to end',
+      'BoundedAttributes histories against a reference model (two accepted readings of "oldest"; cleaning rules; drop '
+      'counter; frozen behaviour), resource merge chains (operands unchanged, key-by-key override, schema rule), '
+      'Resource.create under generated DEEP_RESOURCE_ATTRIBUTES/DEEP_SERVICE_NAME (mandatory keys, built-in < env < code), '
+      'and Deep.start with generated resource-provider plugins compared with the resource in the first poll request.',
+      'Sequence-valued attributes on the wire are left to C08.')
